@@ -25,11 +25,13 @@ pub fn gen_shape(rng: &mut Rng) -> MapShape {
     MapShape {
         sources: rng.range(1, 4),
         names: rng.chance(1, 2),
-        source_root: match rng.below(5) {
+        source_root: match rng.below(8) {
             0 => Some("src".into()),
             1 => Some("src/".into()),
             2 => Some("/abs/root/".into()),
             3 => Some("".into()),
+            4 => Some("/lib".into()),
+            5 => Some("https://cdn.example/pkg".into()),
             _ => None,
         },
         sparse: rng.chance(1, 2),
@@ -60,6 +62,12 @@ pub fn gen_orig_map(rng: &mut Rng, program: &str, shape: &MapShape) -> Map {
             2 => if unicode { "../\u{5171}\u{4eab}/lib.ts".to_string() } else { "../shared/lib.ts".to_string() },
             _ => format!("gen{}.ts", i),
         });
+    }
+    // absolute and URL sources (never prefixed with the sourceRoot), some of which merely START with
+    // the text of the root
+    if rng.chance(1, 4) {
+        let k = rng.below(m.sources.len());
+        m.sources[k] = (*rng.pick(&["/library/util.js", "/lib/inner/x.ts", "/abs/rootless/y.ts", "https://cdn.example/pkgs/z.ts", "http://other.example/w.ts", "webpack:///src/a.ts", "/abs/root/in/root.ts"])).to_string();
     }
     if shape.sources_content {
         for i in 0..shape.sources {
